@@ -97,7 +97,9 @@ class ANSI:
                     char = yield
 
                     # Construct number
-                    if char.isdigit():
+                    # (Only ASCII digits: `str.isdigit` also accepts
+                    # characters like '\u00b2' for which `int()` fails.)
+                    if "0" <= char <= "9":
                         current += char
 
                     # Eval number
@@ -286,7 +288,14 @@ def ansi_escape(text: object) -> str:
     """
     Replace characters with a special meaning.
     """
-    return str(text).replace("\x1b", "?").replace("\b", "?")
+    return (
+        str(text)
+        .replace("\x1b", "?")
+        .replace("\x9b", "?")  # 8-bit CSI.
+        .replace("\001", "?")  # Start/end markers of a zero width escape.
+        .replace("\002", "?")
+        .replace("\b", "?")
+    )
 
 
 class ANSIFormatter(Formatter):
